@@ -75,8 +75,11 @@ Definition a_skip (s : ast) (r : rect) : ast := a_paint s r (fun _ _ _ => ASkip)
 Definition a_erase (s : ast) (r : rect) : ast := a_paint s r (fun _ _ _ => AErase (cur_pen (a_aux s))).
 Definition a_text (s : ast) (l c : Z) (t : list Z) : ast :=
   a_paint s (row_rect l c (text_width t)) (fun _ x _ => AText (cur_pen (a_aux s)) t (x - (c + xc (a_aux s)))).
+(* a character of one column is a Char cell; any other valid character is a one-character text *)
 Definition a_char (s : ast) (l c cp : Z) : ast :=
-  a_paint s (row_rect l c 1) (fun _ _ _ => AChar (cur_pen (a_aux s)) cp).
+  if negb (text_valid [cp]) then s
+  else if cpw cp =? 1 then a_paint s (row_rect l c 1) (fun _ _ _ => AChar (cur_pen (a_aux s)) cp)
+  else a_text s l c [cp].
 (* a line segment merges into a line cell that is already there *)
 Definition a_linecell (s : ast) (l c bits : Z) : ast :=
   a_paint s (row_rect l c 1)
@@ -149,7 +152,9 @@ Definition astep (s : ast) (o : rbop) : ast * list Z :=
   | OCharAt l c cp => (a_char s l c cp, [])
   | OChar cp =>
       if negb (vc_set a) then (s, [])
-      else (a_set_vc_col (a_char s (vc_line a) (vc_col a) cp) (vc_col a + 1), [])
+      else if text_valid [cp] && (0 <? cpw cp)
+           then (a_set_vc_col (a_char s (vc_line a) (vc_col a) cp) (vc_col a + cpw cp), [])
+           else (s, [])
   | OHLine l c1 c2 st caps =>
       (fold_left (fun acc cb => a_linecell acc l (fst cb) (snd cb)) (hline_bits c1 c2 st caps) s, [])
   | OVLine l1 l2 c st caps =>
